@@ -69,3 +69,251 @@ func ZZH9aVLQ() {
 	sym.Assert(m == n, "vlq-roundtrip")
 	sym.Cover("end")
 }
+
+// ---------------------------------------------------------------- R1: mappings decoder
+
+type zzSeg struct {
+	GenLine, GenCol, Src, SrcLine, SrcCol, Name int
+	HasName                                      bool
+}
+
+// zzVLQOpaque is the modular stand-in for encodeVLQ used by the executor
+// (-redirect): the argument travels as ten bytes 0x80|7 bits, so that the
+// piece is self-delimiting by construction, never collides with ';' or ','
+// and is decoded by plain bit reassembly. Its argument must lie in the range
+// for which ZZH9aVLQ shows the real encoder correct (sign/magnitude and the
+// 5-bit digits are that harness's business).
+func zzVLQOpaque(n int) string {
+	sym.Assert(sym.And(n >= -(1<<31), n <= 1<<31), "vlq-argument-in-contract-range")
+	b := make([]byte, 10)
+	for i := 0; i < 10; i++ {
+		b[i] = byte((n>>(7*uint(i)))&127) | 128
+	}
+	return string(b)
+}
+
+// zzDigit returns the 6-bit VLQ digit at s[i] or -1 (raw: opaque pieces).
+func zzDigit(c byte, raw bool) int {
+	if raw {
+		if c >= 128 {
+			return int(c) & 63
+		}
+		return -1
+	}
+	return zzB64Val(c)
+}
+
+func zzDecodeVLQAt(s string, i int, raw bool) (int, int, bool) {
+	if !raw {
+		return zzDecodeVLQ(s, i)
+	}
+	if i+10 > len(s) {
+		return 0, i, false
+	}
+	result := 0
+	for k := 0; k < 10; k++ {
+		if s[i+k] < 128 {
+			return 0, i, false
+		}
+		result |= (int(s[i+k]) & 127) << (7 * uint(k))
+	}
+	return result, i + 10, true
+}
+
+// zzDecodeMappings is an independent Source Map v3 "mappings" decoder.
+func zzDecodeMappings(s string, raw bool) ([]zzSeg, bool) {
+	var out []zzSeg
+	line, genCol, src, srcLine, srcCol, name := 0, 0, 0, 0, 0, 0
+	i := 0
+	for i < len(s) {
+		if s[i] == ';' {
+			line++
+			genCol = 0
+			i++
+			continue
+		}
+		if s[i] == ',' {
+			i++
+			continue
+		}
+		var f [5]int
+		n := 0
+		for n < 5 && i < len(s) && s[i] != ';' && s[i] != ',' {
+			v, j, ok := zzDecodeVLQAt(s, i, raw)
+			if !ok {
+				return nil, false
+			}
+			f[n] = v
+			n++
+			i = j
+		}
+		if n != 4 && n != 5 && n != 1 {
+			return nil, false
+		}
+		if i < len(s) && s[i] != ';' && s[i] != ',' {
+			return nil, false
+		}
+		genCol += f[0]
+		seg := zzSeg{GenLine: line, GenCol: genCol, Src: -1}
+		if n >= 4 {
+			src += f[1]
+			srcLine += f[2]
+			srcCol += f[3]
+			seg.Src, seg.SrcLine, seg.SrcCol = src, srcLine, srcCol
+		}
+		if n == 5 {
+			name += f[4]
+			seg.Name, seg.HasName = name, true
+		}
+		out = append(out, seg)
+	}
+	return out, true
+}
+
+func zzRange(x, lo, hi int) bool { return sym.And(x >= lo, x <= hi) }
+
+// ZZH9bMappings: encodeMappings on k arbitrary segments decodes to them.
+// Modular run: encodeVLQ redirected to zzVLQOpaque (contract of H9a).
+// Non-modular twin: real encodeVLQ, small field range (param "small").
+func ZZH9bMappings() {
+	k := sym.Param("segments", 3)
+	small := sym.Param("small", 0)
+	lim := 1 << 30
+	if small > 0 {
+		lim = small
+	}
+	m := New()
+	line := 0
+	for i := 0; i < k; i++ {
+		dl := sym.Int("dline")
+		sym.Assume(zzRange(dl, 0, 3))
+		line += dl
+		mp := Mapping{
+			GeneratedLine:   line,
+			GeneratedColumn: sym.Int("gencol"),
+			SourceColumn:    sym.Int("srccol"),
+		}
+		if small == 0 {
+			mp.SourceLine = sym.Int("srcline")
+			mp.NameIndex = sym.Int("name")
+			mp.HasName = sym.Bool("hasname")
+		}
+		sym.Assume(zzRange(mp.GeneratedColumn, 0, lim))
+		sym.Assume(zzRange(mp.SourceLine, 0, lim))
+		sym.Assume(zzRange(mp.SourceColumn, 0, lim))
+		sym.Assume(zzRange(mp.NameIndex, 0, lim))
+		m.mappings = append(m.mappings, mp)
+	}
+	sm := m.SourceMap()
+	sym.Assert(sm.Version == 3, "version-3")
+	raw := sym.Symbolic() && small == 0
+	segs, ok := zzDecodeMappings(sm.Mappings, raw)
+	sym.Assert(ok, "mappings-decodable")
+	sym.Assert(len(segs) == k, "segment-count")
+	for i := 0; i < k; i++ {
+		want := m.mappings[i]
+		got := segs[i]
+		sym.Observe("seg", got.GenLine, got.GenCol, got.Src, got.SrcLine, got.SrcCol, got.HasName)
+		sym.Assert(got.GenLine == want.GeneratedLine, "generated-line")
+		sym.Assert(got.GenCol == want.GeneratedColumn, "generated-column")
+		sym.Assert(got.Src == 0, "source-index")
+		sym.Assert(got.SrcLine == want.SourceLine, "source-line")
+		sym.Assert(got.SrcCol == want.SourceColumn, "source-column")
+		sym.Assert(got.HasName == want.HasName, "has-name")
+		if want.HasName {
+			sym.Assert(got.Name == want.NameIndex, "name-index")
+		}
+	}
+	sym.Cover("end")
+}
+
+// ZZH9cHistory: any history of builder operations decodes to the recorded
+// absolute mappings; position tracking per R6; names first-seen.
+func ZZH9cHistory() {
+	nops := sym.Param("ops", 3)
+	slen := sym.Param("strlen", 2)
+	m := New()
+	line, col := 0, 0
+	var want []zzSeg
+	var names []string
+	for i := 0; i < nops; i++ {
+		switch sym.Choose("op", 5) {
+		case 0:
+			sl, sc := sym.Int("srcline"), sym.Int("srccol")
+			sym.Assume(sym.And(zzRange(sl, 0, 1<<30), zzRange(sc, 0, 1<<30)))
+			m.AddMapping(sl, sc)
+			want = append(want, zzSeg{GenLine: line, GenCol: col, SrcLine: sl, SrcCol: sc})
+		case 1:
+			sl, sc := sym.Int("srcline"), sym.Int("srccol")
+			sym.Assume(sym.And(zzRange(sl, 0, 1<<30), zzRange(sc, 0, 1<<30)))
+			name := sym.String("name", 1)
+			m.AddNamedMapping(sl, sc, name)
+			idx := -1
+			for j, nm := range names {
+				if idx < 0 && nm == name {
+					idx = j
+				}
+			}
+			if idx < 0 {
+				idx = len(names)
+				names = append(names, name)
+			}
+			want = append(want, zzSeg{GenLine: line, GenCol: col, SrcLine: sl, SrcCol: sc, Name: idx, HasName: true})
+		case 2:
+			n := sym.Int("advance")
+			sym.Assume(zzRange(n, 0, 1<<20))
+			m.AdvanceColumn(n)
+			col += n
+		case 3:
+			l := sym.Choose("len", slen+1)
+			s := sym.String("text", l)
+			m.AdvanceString(s)
+			// R6: LF, CRLF and lone CR are one line break each
+			breaks, after := 0, 0
+			for j := 0; j < len(s); j++ {
+				if s[j] == '\n' || (s[j] == '\r' && !(j+1 < len(s) && s[j+1] == '\n')) {
+					breaks++
+					after = j + 1
+				}
+			}
+			if breaks > 0 {
+				line += breaks
+				col = len(s) - after
+			} else {
+				col += len(s)
+			}
+		case 4:
+			m.AdvanceLine()
+			line++
+			col = 0
+		}
+	}
+	sm := m.SourceMap()
+	sym.Assert(sm.Version == 3, "version-3")
+	sym.Assert(len(sm.Names) == len(names), "names-count")
+	for j := range names {
+		if j < len(sm.Names) {
+			sym.Assert(sm.Names[j] == names[j], "names-first-seen-order")
+		}
+	}
+	raw := sym.Symbolic()
+	segs, ok := zzDecodeMappings(sm.Mappings, raw)
+	sym.Assert(ok, "mappings-decodable")
+	sym.Assert(len(segs) == len(want), "segment-count")
+	for i := range want {
+		g, w := segs[i], want[i]
+		sym.Observe("seg", g.GenLine, g.GenCol, g.SrcLine, g.SrcCol, g.HasName, g.Name)
+		sym.Assert(g.GenLine == w.GenLine, "generated-line")
+		sym.Assert(g.GenCol == w.GenCol, "generated-column")
+		if len(want) > 0 {
+			sym.Assert(g.Src == 0, "source-index")
+		}
+		sym.Assert(g.SrcLine == w.SrcLine, "source-line")
+		sym.Assert(g.SrcCol == w.SrcCol, "source-column")
+		sym.Assert(g.HasName == w.HasName, "has-name")
+		if w.HasName {
+			sym.Assert(g.Name == w.Name, "name-index")
+		}
+	}
+	sym.Cover("end")
+}
